@@ -592,7 +592,7 @@ pub fn run_hist(hp: &HP, seed: u64, steps: Option<&[Step]>) -> HistRun {
     out.stats = d.stats.clone();
     out.stats.add("events", d.history.len() as u64);
     out.violations = d.violations;
-    out.sim_ns = now;
+    out.sim_ns = now.min(1u64 << 50);
     HistRun { out, steps: done }
 }
 
